@@ -125,7 +125,7 @@ def replay_dmd(o, model):
 
 
 def run_common(pid, tier, seed):
-    ck = harness.Check(pid, tier, seed, level="other")
+    ck = harness.Check(pid, tier, seed, level="proof" if pid == "C13" else "other")
     mod = pyload.module("digital_metadata")
     return ck, mod
 
